@@ -61,6 +61,10 @@ theorem Store.get?_mod (st : Store) (id : Nat) (f : Stream → Stream) (k : Nat)
     · next hk => rw [hk, h]; rfl
     · rfl
 
+theorem Store.get?_mod' (S : Store) (id : Nat) (f : Stream → Stream) (hf : ∀ x, (f x).key = x.key) (k : Nat) :
+    (Store.mod S id f).get? k = if k = id then (S.get? id).map f else S.get? k :=
+  Store.get?_mod S id f k (fun x _ => hf x)
+
 @[simp] theorem Store.nextKey_mod (st : Store) (id : Nat) (f : Stream → Stream) : (Store.mod st id f).nextKey = st.nextKey := by
   unfold Store.mod; split <;> rfl
 @[simp] theorem Store.ids_mod (st : Store) (id : Nat) (f : Stream → Stream) : (Store.mod st id f).ids = st.ids := by
@@ -205,6 +209,47 @@ elab "ev_hyp" : tactic => withMainContext do
       catch _ => pure ()
   throwError "ev_hyp: no applicable hypothesis"
 
+/-- find a `let` under the projections `.store` / `.1` of a goal expression -/
+partial def peelLet (e : Expr) : Option ((Expr → Expr) × Expr) :=
+  if e.isLet then some (id, e)
+  else match e with
+    | .mdata _ b => peelLet b
+    | .proj n i b => (peelLet b).map fun (c, l) => (fun x => .proj n i (c x), l)
+    | .app f b =>
+      if e.isAppOfArity ``Streams.store 1 || e.isAppOfArity ``Prod.fst 3 then
+        (peelLet b).map fun (c, l) => (fun x => .app f (c x), l)
+      else none
+    | _ => none
+
+/-- on a goal `Evolves P N a (… let x := v; b …).store`: when `x : Streams`, prove the goal for `v`
+    first and go on with an opaque `x` (keeps the terms small); any other `let` is unfolded -/
+elab "ev_let" : tactic => do
+  let g ← getMainGoal
+  g.withContext do
+    let ty ← instantiateMVars (← g.getType)
+    unless ty.isAppOfArity ``Evolves 4 do throwError "ev_let: not an Evolves goal"
+    let E := ty.appArg!
+    let pre := ty.appFn!
+    match peelLet E with
+    | none => throwError "ev_let: no let"
+    | some (ctx, l) =>
+      match l with
+      | .letE x T v b _ =>
+        if T.isConstOf ``Streams then
+          let g1 ← mkFreshExprSyntheticOpaqueMVar (mkApp pre (mkApp (mkConst ``Streams.store) v))
+          let g2ty ← withLocalDeclD x T fun xv => do
+            let hxTy := mkApp pre (mkApp (mkConst ``Streams.store) xv)
+            withLocalDeclD `hx hxTy fun hv => do
+              mkForallFVars #[xv, hv] (mkApp pre (ctx (b.instantiate1 xv)))
+          let g2 ← mkFreshExprSyntheticOpaqueMVar g2ty
+          g.assign (mkApp2 g2 v g1)
+          let (_, g2') ← g2.mvarId!.introNP 2
+          replaceMainGoal [g1.mvarId!, g2']
+        else
+          let g' ← g.change (mkApp pre (ctx (b.instantiate1 v)))
+          replaceMainGoal [g']
+      | _ => throwError "ev_let: unexpected"
+
 /-- closes `CoreEq a b` when `b` is `a` with non-core fields changed -/
 syntax "core_tac" : tactic
 macro_rules | `(tactic| core_tac) => `(tactic| first | exact ⟨rfl, rfl, rfl, rfl⟩ | (constructor <;> simp <;> done))
@@ -216,7 +261,7 @@ syntax "removable_tac" ident : tactic
     every lemma -/
 syntax "ev_step" : tactic
 macro_rules
-  | `(tactic| ev_step) => `(tactic| (refine Evolves.mod ?_ _ _ ?hf; case hf => (intro _ _; refine Good.core ?_; core_tac)))
+  | `(tactic| ev_step) => `(tactic| (with_reducible refine Evolves.mod ?_ _ _ ?hf; case hf => (intro _ _; refine Good.core ?_; core_tac)))
 macro_rules | `(tactic| ev_step) => `(tactic| with_reducible apply Evolves.unlink)
 macro_rules
   | `(tactic| ev_step) =>
@@ -225,6 +270,6 @@ macro_rules | `(tactic| ev_step) => `(tactic| ev_hyp)
 
 /-- repeat `ev_step`, normalising `.store`, splitting `if`/`match` and eliminating result pairs on the way -/
 macro "ev" : tactic =>
-  `(tactic| repeat' (first | assumption | exact Evolves.refl _ | ev_step | simp only [crp_store] | subst_fst | split | with_reducible refine Evolves.ite (fun _ => ?_) (fun _ => ?_)))
+  `(tactic| repeat' (first | assumption | exact Evolves.refl _ | ev_let | ev_step | simp (config := { zeta := false }) only [crp_store] | subst_fst | split | with_reducible refine Evolves.ite (fun _ => ?_) (fun _ => ?_)))
 
 end H2V.Lemmas.ConnResetP
